@@ -170,4 +170,4 @@ impl<S: Serve> RequestHook for S {}
 
 #[cfg(kani)]
 #[path = "/verif/kani/hooks.rs"]
-mod verif_kani;
+pub(crate) mod verif_kani;
